@@ -175,6 +175,7 @@ def run(ctx):
         compare(ctx, nb.cfg, exp, os.path.join(nb.tap, "prepared"), "after " + oid + "+junk", agg)
         shutil.rmtree(nb.root, ignore_errors=True)
     ctx.extra["manifest_named_but_unchanged"] = sorted(ctx.extra.get("manifest_named_but_unchanged", ()))
+    ctx.require(ctx.evaluations >= 1000 * len(cfgs), "only %d path comparisons for %d configurations" % (ctx.evaluations, len(cfgs)))
     ctx.extra["configurations"] = len(cfgs)
     ctx.extra["dirty_history_runs"] = len(targets)
     # self-test stratum: a constructed base-name clash must be seen (monitor not blind)
